@@ -39,7 +39,7 @@ def parse_wc_line(line: str):
 class WcMachine(Machine):
     name = "M-WC"
     PROPS = ("C05",)
-    QUICK_RUNS = {"C05": 6000}
+    QUICK_RUNS = {"C05": 4000}
     THOROUGH_BUDGET_S = 600
     RULE = (
         "one evaluation = one seeded history (<= 40 ops) over <= 6 live Wildcard/Address objects "
